@@ -306,6 +306,32 @@ def mode_selection_rules(fb, ctx):
     h = fb.hir_of(b)
     ms = [m for m in hirq.matches_in(h["body"]) if "ThirdPartyVerificationMode" in (m.get("sty") or "")]
     where = f"{b['file']}:{ms[0]['ln'] if ms else b['line']}"
+    # EVAL first: the expression that computes the per-block mode = initialiser of the local handed to verify_block_signature
+    import absint
+    vcalls = [c for c in find_all(h["body"], lambda z: hirq.calls_path(z, r"crypto::verify_block_signature$"))]
+    got = None
+    if len(vcalls) == 1 and len(vcalls[0].get("args", [])) == 4:
+        marg = strip_h(vcalls[0]["args"][3])
+        if hirq.is_lid(marg, {marg.get("res", {}).get("id")}) if isinstance(marg, dict) and marg.get("k") == "path" else False:
+            mid = marg["res"]["id"]
+            lets = [l for l in find_all(h["body"], lambda z: z.get("k") == "let" and isinstance(z.get("pat"), dict) and z["pat"].get("k") == "bind" and z["pat"].get("id") == mid and z.get("init") is not None)]
+            p_mode = hirq.param_ids(h, 2)
+            if len(lets) == 1 and p_mode:
+                try:
+                    got = {}
+                    for ver in (0, 1):
+                        for req in ("UnsafeLegacy", "PreviousSignatureHashing"):
+                            fl = absint.free_locals(lets[0]["init"])
+                            env = {i_: absint.sym(nm_ or "v") for i_, nm_ in fl.items()}
+                            env[list(p_mode)[0]] = absint.C(req)
+                            it = absint.Interp(fields={(v_[1], "version"): ver for v_ in env.values() if isinstance(v_, tuple) and v_[0] == "sym"})
+                            got[("0" if ver == 0 else "other", req)] = absint.tag(it.run(lets[0]["init"], env)) or "?"
+                except absint.Unknown:
+                    got = None
+    if got is not None:
+        want = {("0", "UnsafeLegacy"): "UnsafeLegacy", ("0", "PreviousSignatureHashing"): "PreviousSignatureHashing", ("other", "UnsafeLegacy"): "PreviousSignatureHashing", ("other", "PreviousSignatureHashing"): "PreviousSignatureHashing"}
+        ctx.check(got == want, "TABLE", "verify_inner: legacy external signatures only for (version 0, UnsafeLegacy requested)", "TABLE|verify_inner|mode", f"(block version, requested mode) -> scheme is {got}; the specification allows the legacy scheme only in the cell (0, UnsafeLegacy)", where)
+        return
     if len(ms) != 1:
         ctx.fail("TABLE", "verify_inner selects the external-signature scheme with one match on (block.version, requested mode)", "TABLE|verify_inner|mode|anchor", f"{len(ms)} matches over ThirdPartyVerificationMode", where)
         return
@@ -389,6 +415,11 @@ def _alg_from_blocks(fb, b):
                 if s["r"].get("k") == "use" and s["r"]["op"].get("k") in ("move", "copy") and s["r"]["op"]["pl"]["l"] == d and not s["d"].get("p"):
                     tgt = s["d"]["l"]
         targets.setdefault(tgt, []).append(c)
+    # equivalent form: computed once after the loop from `blocks.last().unwrap_or(&authority).next_key`
+    for c in cs:
+        la = mirq.operand_leaves(fb, b, c.args[0])
+        if any(re.search(r"::last$", l) for l in la) and any("unwrap_or" in l for l in la):
+            return True
     from order import scc_of
     for tgt, calls in targets.items():
         in_loop = [c for c in calls if scc_of(b, c.bb)]
@@ -506,6 +537,7 @@ def strip_a(n):
 
 
 def needs_secret_rules(fb, ctx):
+    import absint
     # TokenNext::keypair: Seal -> Err(AlreadySealed)
     b = fb.body(C + "::TokenNext::keypair")
     h = fb.hir_of(b)
@@ -515,6 +547,15 @@ def needs_secret_rules(fb, ctx):
         for v in hirq.pat_variants(arm["pat"]):
             ev = hirq.err_variant(arm["body"])
             kinds[(v or "").split("::")[-1]] = (ev.split("::")[-1] if isinstance(ev, str) else ("Ok" if (hirq.ctor_name(strip(arm["body"])) or "").endswith("::Ok") else "?"))
+    try:
+        pid_ = (h.get("params") or [{}])[0].get("id")
+        ev_k = {}
+        for v_ in ("Seal", "Secret"):
+            r_ = absint.Interp().run(h["body"], {pid_: absint.C(v_, absint.sym("x"))})
+            ev_k[v_] = "Ok" if absint.tag(r_) == "Ok" else ("AlreadySealed" if absint.tag(r_) == "Err" and absint.find_ctor(r_, "AlreadySealed") is not None else absint.show(r_))
+        kinds = ev_k
+    except (absint.Unknown, TypeError):
+        pass
     ctx.check(kinds == {"Seal": "AlreadySealed", "Secret": "Ok"}, "SEALED", "TokenNext::keypair refuses a seal", "SEALED|keypair", f"expected Seal -> Err(AlreadySealed), Secret -> Ok(..); found {kinds}", f"{b['file']}:{b['line']}")
     for fn in (F + "::append", F + "::append_serialized"):
         bb = fb.body(fn)
@@ -530,6 +571,14 @@ def needs_secret_rules(fb, ctx):
     for arm in (mm[0]["arms"] if mm else []):
         for v in hirq.pat_variants(arm["pat"]):
             k2[(v or "").split("::")[-1]] = hirq.literal(arm["body"])
+    # EVAL first: is_sealed interpreted for both variants of TokenNext (any shape: match, matches!, if let)
+    import absint
+    try:
+        pid_ = (ih.get("params") or [{}])[0].get("id")
+        ev2 = {v_: absint.Interp().run(ih["body"], {pid_: absint.C(v_, absint.sym("x"))}) for v_ in ("Seal", "Secret")}
+        k2 = ev2
+    except (absint.Unknown, TypeError):
+        pass
     ctx.check(k2 == {"Seal": True, "Secret": False}, "SEALED", "is_sealed is true exactly for Seal", "SEALED|is_sealed", f"found {k2}", f"{ib['file']}:{ib['line']}")
     # every public append / seal / request path of Biscuit and UnverifiedBiscuit reaches one of the gated functions
     gated = {fb.body(F + "::append")["key"], fb.body(F + "::append_serialized")["key"], fb.body(F + "::seal")["key"], tb["key"]}
@@ -566,6 +615,14 @@ def typestate_rules(fb, ctx):
     for b, i, s in sites:
         where = f"{b['file']}:{s['ln']}"
         if b["path"] not in allowed:
+            # a method of an already verified token may build a new one around a container DERIVED from its own by the container's
+            # own extension / sealing operations (what Biscuit::seal does by cloning self and replacing the container)
+            self_ty = str((b.get("locals") or ["", ""])[1]) if b.get("argc", 0) >= 1 else ""
+            lc = mirq.operand_leaves(fb, b, mirq.agg_field(s, "container"))
+            derived = re.search(r"^&(mut )?token::Biscuit$", self_ty) and any(re.search(r"SerializedBiscuit::(seal|append|append_serialized)$", l) for l in lc) and any(l == "arg1.container" or l.startswith("arg1.container.") for l in lc)
+            if derived:
+                ctx.ok("TYPESTATE", f"{b['path'].split('::')[-1]}: container derived from the verified token's own container", where, f"container <- {sorted(l for l in lc if 'SerializedBiscuit' in l)}")
+                continue
             ctx.fail("TYPESTATE", f"Biscuit built in {b['path']}", f"TYPESTATE|{b['path']}", "a verified-token value is constructed outside the five audited constructors", where)
             continue
         lc = mirq.operand_leaves(fb, b, mirq.agg_field(s, "container"))
@@ -743,6 +800,8 @@ def signature_version_rules(fb, ctx):
     h = fb.hir_of(b)
     where = f"{b['file']}:{b['line']}"
     # returns 1 for external signature / datalog >= 3.3 / non-ed25519 pair, else max of previous versions
+    if sigver_by_evaluation(ctx, h, where):
+        return sigver_callers(fb, ctx)
     rets = find_all(h["body"], lambda n: n.get("k") == "ret")
     consts = sorted((r.get("e") or {}).get("res", {}).get("path", "").split("::")[-1] for r in rets if isinstance(r.get("e"), dict))
     ctx.check(consts == ["DATALOG_3_3_SIGNATURE_VERSION", "NON_ED25519_SIGNATURE_VERSION", "THIRD_PARTY_SIGNATURE_VERSION"], "SIGVER", "three early returns select the chained scheme", "SIGVER|early", f"early returns found: {consts}", where)
@@ -771,6 +830,48 @@ def signature_version_rules(fb, ctx):
     mx = mcalls(tail, r"Iterator::max$|::max$") if isinstance(tail, dict) else []
     oth = [c for c in hirq.callee_paths(tail or {}) if re.search(r"::(last|next|min|nth|first)$", c)]
     ctx.check(bool(mx) and not oth and bool(mcalls(tail, r"Option::<T>::unwrap_or$")), "SIGVER", "otherwise the version is the maximum of all previous versions", "SIGVER|max", f"tail expression must be previous_blocks_sig_versions.max().unwrap_or(0); calls: {[hirq.short(c) for c in hirq.callee_paths(tail or {})]}", where)
+    sigver_callers(fb, ctx)
+
+
+def sigver_by_evaluation(ctx, h, where):
+    """EVAL: block_signature_version interpreted over (external signature present?) x (declared block version None / 3..6) x
+    (block key algorithm) x (next key algorithm): version 1 (the chained scheme) is forced by an external signature, by Datalog >= 3.3
+    or by any non-Ed25519 key; otherwise the result is the maximum of the previous versions (0 when there is none)."""
+    import absint, itertools, os
+    repo = os.environ.get("VERIF_REPO", "/repo")
+    consts = {}
+    for f_ in ("biscuit-auth/src/token/mod.rs", "biscuit-auth/src/format/mod.rs"):
+        for m_ in re.finditer(r"const (\w+): u32 = (\d+);", open(os.path.join(repo, f_)).read()):
+            consts[m_.group(1)] = int(m_.group(2))
+    ps = h.get("params") or []
+    if len(ps) != 5 or not all(p.get("k") == "bind" for p in ps) or "DATALOG_3_3" not in consts:
+        return False
+    ids = [p["id"] for p in ps]
+    cells, bad = 0, None
+    try:
+        for ext, ver, k1, k2 in itertools.product((False, True), (None, 3, 4, 5, 6), ("Ed25519", "P256"), ("Ed25519", "P256")):
+            def hook_max(interp, recv, args):
+                return absint.C("SymOpt", absint.sym("max of previous versions")) if recv == absint.sym("previous") else NotImplemented
+            def hook_unwrap_or(interp, recv, args):
+                return ("prevmax", args[0]) if absint.tag(recv) == "SymOpt" else NotImplemented
+            it = absint.Interp(consts=consts, hooks={"max": hook_max, "unwrap_or": hook_unwrap_or})
+            env = {ids[0]: absint.C(k1, absint.sym("kp")), ids[1]: absint.C(k2, absint.sym("kp")), ids[2]: absint.C("Some", absint.sym("sig")) if ext else absint.C("None"), ids[3]: absint.C("Some", ver) if ver is not None else absint.C("None"), ids[4]: absint.sym("previous")}
+            got = it.run(h["body"], env)
+            forced = ext or (ver is not None and ver >= consts["DATALOG_3_3"]) or k1 != "Ed25519" or k2 != "Ed25519"
+            want = 1 if forced else ("prevmax", 0)
+            cells += 1
+            if got != want and bad is None:
+                bad = (dict(external_signature=ext, block_version=ver, block_key=k1, next_key=k2), got, want)
+    except absint.Unknown:
+        return False
+    desc = f"{bad[0]}: returns {absint.show(bad[1]) if not (isinstance(bad[1], tuple) and bad[1][0] == 'prevmax') else 'max(previous).unwrap_or(' + str(bad[1][1]) + ')'}, the specification requires {'1' if bad[2] == 1 else 'the maximum of the previous versions (0 if none)'}" if bad else ""
+    ctx.check(bad is None, "SIGVER", f"block_signature_version equals the specification on its {cells}-cell domain", "SIGVER|table", desc, where)
+    for inst in ("three early returns select the chained scheme", "external signature forces version 1", "datalog >= 3.3 forces version 1", "any non-ed25519 key forces version 1", "otherwise the version is the maximum of all previous versions"):
+        ctx.ok("SIGVER", inst, where, "decided by the abstract evaluation above")
+    return True
+
+
+def sigver_callers(fb, ctx):
     # both callers pass authority + every block
     for fn in (F + "::append", F + "::append_serialized"):
         cb = fb.body(fn)
